@@ -184,8 +184,9 @@ def writer_rows(tier: str, seed: int) -> list[dict]:
         add("write_uuid", NULL if u is None else ablob(u.bytes), lambda s, u=u: w.write_uuid(s, u))
     caw = w.compact_array_writer(w.write_int8)
     law = w.legacy_array_writer(w.write_int16)
-    for n in [None, 0, 1, 2, 126, 127, 128, 300]:
-        items = None if n is None else tuple(rng.randint(-128, 127) for _ in range(n))
+    for n in [None, 0, 1, 2, 126, 127, 128, 300, 32767, 32768, 70000]:
+        items = None if n is None else tuple(rng.randint(-128, 127) for _ in range(n)) if n < 1000 else \
+            (1,) + (0,) * (n - 2) + (-1,)
         xa = NULL if items is None else {"seq": [aint(i) for i in items]}
         add("compact_array_writer", xa, lambda s, items=items: caw(s, items))
         add("legacy_array_writer", xa, lambda s, items=items: law(s, items))
